@@ -122,6 +122,19 @@ def run(ctx):
         after = dc.to_string()
         if after != s:
             res.violation("format leaked out of the context", case, impl=[s, after], clause="patterns")
+        if calls[0] % 5 == 2:
+            # the documented class variable written directly, its two entries in either order: the entry named decay_pattern is
+            # the top-level pattern and the one named sub_decay_pattern the nested one, wherever they sit in the dictionary
+            saved = DescriptorFormat.config
+            try:
+                DescriptorFormat.config = {"sub_decay_pattern": p2, "decay_pattern": p1} if calls[0] % 2 == 0 else {"decay_pattern": p1, "sub_decay_pattern": p2}
+                direct = dc.to_string()
+            finally:
+                DescriptorFormat.config = saved
+            res.count("config_written_directly")
+            if direct != sp:
+                res.violation("patterns written directly into DescriptorFormat.config are not used as named (first pattern at the top level, second at nested levels)",
+                              dict(case, patterns=[p1, p2]), impl=direct, model=sp, clause="patterns")
         d = dc.to_dict()
 
         def on(ans, s=s, case=case):
